@@ -19,6 +19,14 @@ pub struct FsEvent {
 
 static EVENTS: StdMutex<Vec<FsEvent>> = StdMutex::new(Vec::new());
 static CRASH_ON: StdMutex<Option<&'static str>> = StdMutex::new(None);
+type Observer = Box<dyn Fn(&FsEvent) + Send>;
+static OBSERVER: StdMutex<Option<Observer>> = StdMutex::new(None);
+
+/// Harness hook called at every probe, before anything else can run: what the oracle
+/// snapshots here is exactly what a process kill at this instant would leave behind.
+pub fn set_observer(f: Option<Observer>) {
+    *OBSERVER.lock().unwrap_or_else(|e| e.into_inner()) = f;
+}
 
 /// Simulated kill exactly at the next probe of this kind (None disarms).
 pub fn crash_at_probe(kind: Option<&'static str>) {
@@ -29,6 +37,9 @@ pub fn fs_event(kind: &'static str, path: &Path, path2: Option<&Path>) {
     let len = std::fs::metadata(path).ok().map(|m| m.len());
     let ev = FsEvent { kind, path: path.to_path_buf(), path2: path2.map(|p| p.to_path_buf()), len, at_ns: kernel::now_ns() };
     kernel::event(|| format!("fs {kind} {:?} len={len:?}", path.file_name()));
+    if let Some(obs) = OBSERVER.lock().unwrap_or_else(|e| e.into_inner()).as_ref() {
+        obs(&ev);
+    }
     EVENTS.lock().unwrap_or_else(|e| e.into_inner()).push(ev);
     let crash_here = {
         let mut c = CRASH_ON.lock().unwrap_or_else(|e| e.into_inner());
